@@ -18,9 +18,29 @@ type KnownFinding struct {
 	Property   string `json:"property"`
 	Status     string `json:"status"` // "open" or "fixed"
 	Obligation string `json:"obligation"`
+	// Variants: the finding also covers the numbered duplicates of the
+	// obligation (name~2, name~3, ...): the same statement at several places
+	// of one function (e.g. one panic("not implemented") per unsupported case)
+	Variants bool `json:"variants,omitempty"`
 	What       string `json:"what"`
 	Witness    string `json:"witness,omitempty"`
 	Commit     string `json:"commit,omitempty"`
+}
+
+func (k KnownFinding) matches(name string) bool {
+	if k.Obligation == name {
+		return true
+	}
+	if k.Variants && strings.HasPrefix(name, k.Obligation+"~") {
+		rest := name[len(k.Obligation)+1:]
+		for _, c := range rest {
+			if c < '0' || c > '9' {
+				return false
+			}
+		}
+		return rest != ""
+	}
+	return false
 }
 
 func loadKnownFindings() []KnownFinding {
@@ -156,7 +176,7 @@ func runCheck(prop, tier, repo string, seed int, overlay map[string][]byte, repo
 	known := loadKnownFindings()
 	for _, o := range res.obls {
 		for _, k := range known {
-			if k.Status == "open" && k.Obligation == o.Name {
+			if k.Status == "open" && k.matches(o.Name) {
 				o.Budget = 4 * time.Second // known to fail: do not spend the full timeout on it
 			}
 		}
@@ -164,6 +184,7 @@ func runCheck(prop, tier, repo string, seed int, overlay map[string][]byte, repo
 	solveAll(res.obls, cfg)
 
 	exit := 0
+	printedKnown := map[int]bool{}
 	for _, o := range res.obls {
 		res.solverSecs += o.Secs
 		if o.Expect == "sat" {
@@ -183,9 +204,12 @@ func runCheck(prop, tier, repo string, seed int, overlay map[string][]byte, repo
 			continue
 		}
 		isKnown := false
-		for _, k := range known {
-			if k.Status == "open" && k.Obligation == o.Name {
-				fmt.Printf("KNOWN-FINDING: property=%s %s [%s]\n", prop, k.What, o.Name)
+		for ki, k := range known {
+			if k.Status == "open" && k.matches(o.Name) {
+				if !printedKnown[ki] {
+					fmt.Printf("KNOWN-FINDING: property=%s %s [%s]\n", prop, k.What, o.Name)
+					printedKnown[ki] = true
+				}
 				res.known = append(res.known, o.Name)
 				isKnown = true
 				break
